@@ -562,7 +562,7 @@ def main():
                 violations.append({"kind": "proof", "signature": "kvrace-build", "replay": rp, "found_input": False,
                                    "what": "the race-detector build of the cachekv concurrency run failed"})
                 continue
-            rounds = 150 if tier == "quick" else 5000
+            rounds = 300 if tier == "quick" else 5000
             rr = run([os.path.join(HARN, "bin", "kvrace"), "--seed", str(seed), "--rounds", str(rounds)],
                      env=dict(ENV, GORACE="halt_on_error=1 exitcode=66"), timeout=3000)
             extras_info["kvrace"] = {"rounds": rounds, "result": rr.stdout.strip()[-400:]}
